@@ -48,6 +48,9 @@ func vh_SUB() {
 	vDrain()
 	post := vSnapshotNode(n)
 	f := fut.(*future[OperationResponse])
+	if r.state != Shutdown {
+		vCheckInv(n, true, true)
+	}
 	vAssert(!vHeld(&r.mu), "C18|C20.lock-released")
 	vAssert(vAnd(post.term == pre.term, vAnd(post.state == pre.state, post.votedFor == pre.votedFor)), "C02.submit-keeps-role-and-term")
 	vAssert(vAnd(post.commit == pre.commit, post.applied == pre.applied), "C01.submit-keeps-commit")
